@@ -14,6 +14,16 @@ CHECKS = {
         note="Trusts vf/zmodel.py's reading of the documentation (DESIGN.md appendix A) for O1; O2 trusts nothing but the engine's determinism. "
              "Programs whose outcome the documentation leaves open are skipped and counted.",
         design="DESIGN.md 5-C01"),
+    "C02": dict(
+        technique="ground truth by construction (pure-Python ELF/DWARF writer) + independent decoding (llvm-dwarfdump -v) vs the engine's raw enumeration",
+        category="exploration",
+        text="Generated DIE forests (1-9 units, compile and partial, DWARF 2-5 headers, shared/private abbreviation tables with sparse codes, depth to 120, "
+             "chains of 200 siblings, empty units, childless DIEs whose abbreviation claims children, sibling attributes, indirect/implicit_const/data16/"
+             "line_strp forms), the repository's sample binaries (with dwz supplementary files) and objects freshly compiled by gcc and clang at several DWARF "
+             "versions are enumerated through `raw unit`, `raw entry` and `raw unit root child*`; every unit and DIE must appear exactly once in section "
+             "pre-order with its true offset, tag, parent, unit, child flag, position number and (attribute, form) list in stored order.",
+        note="Generated files are known by construction and cross-checked against llvm-dwarfdump before use (a mismatch there is a harness failure); samples and compiler output trust llvm-dwarfdump.",
+        design="DESIGN.md 5-C02"),
     "C03": dict(
         technique="scoping reference model + alpha-renaming / block-inlining metamorphic relations + expected compile errors, over generated binder-heavy programs",
         category="exploration",
@@ -32,6 +42,25 @@ CHECKS = {
              "vocabulary (about 970) is applied to 24 operand kinds: unchanged-or-nothing, never both, neither iff a diagnostic.",
         note="No model; both sides are runs of the engine.  Comparisons use the driver's canonical serialisation (values, domains, positions, DIE identity incl. import route).",
         design="DESIGN.md 5-C04"),
+    "C05": dict(
+        technique="algebraic navigation laws checked on recorded identities of every DIE (offset + file + mode + import route), and as zero-count in-language queries",
+        category="exploration",
+        text="For every DIE of every input (sample binaries, compiled objects, generated forests with partial units imported twice and nested up to four "
+             "levels with deep content), in raw and cooked mode, the engine reports the DIE, its parent, children, root, end of the parent chain, ?root and unit; "
+             "Python checks child/parent inverse, root = chain end = ?root, unit entry = entry, unit DIEs = root child*, unit of a DIE lists it, same-route "
+             "DIEs identical; the same laws are run in the language and must report no counterexample.",
+        note="No model; identities come from the driver's serialisation of value_die (offset, ELF image size, raw/cooked, import chain).",
+        design="DESIGN.md 5-C05"),
+    "C06": dict(
+        technique="ground truth by construction: expected cooked view computed from the forest model; word-pair equivalences on the engine alone",
+        category="exploration",
+        text="The forest model computes the expected cooked units, the cooked pre-order with import routes, every DIE's cooked child list and its attribute "
+             "list (own attributes in stored order, then the set integrated through specification/abstract_origin chains of length 0-4 with shadowing; never "
+             "sibling/declaration; no name twice) and the values seen through integration; @AT_x vs attribute ?AT_x cooked value, ?AT_x vs attribute ?AT_x "
+             "and name vs @AT_name are compared for every DIE of generated, sample and compiled files and ~35 attribute names.",
+        note="Where the reference graph branches and several reachable DIEs define a lacking attribute, the statement does not say which supplies it: presence is "
+             "checked, form/value are not.  Known finding S3 is matched by exactly that DIE shape.",
+        design="DESIGN.md 5-C06"),
     "C08": dict(
         technique="exact big-integer oracle over recorded operator events (direct calls into int.cc + queries) under ASan/UBSan",
         category="exploration",
